@@ -133,6 +133,15 @@ pub fn respell(rng: &mut Rng, path: &str) -> String {
     }
     if !names.is_empty() && rng.chance(1, 6) {
         s.push('/');
+    } else if rng.chance(1, 8) {
+        // a final "." component
+        if !s.ends_with('/') {
+            s.push('/');
+        }
+        s.push('.');
+        if rng.chance(1, 3) {
+            s.push('/');
+        }
     }
     if s.is_empty() {
         s.push('/');
